@@ -86,6 +86,9 @@ fn ref_model(runner : &Runner) -> RefModel
     let mut rule_pairs : BTreeMap<(String, String), Vec<u8>> = BTreeMap::new();
     for (identity, by_sources) in runner.record.iter()
     {
+        // (a directory source is named by ruler's own hash of its listing, which the harness's
+        //  record does not hold: such pairs are not requested by name)
+        if identity.1.iter().any(|s| super::super::model::dir_leaf_members(s).is_some()) { continue; }
         let rule_ticket = Rule::new(identity.0.clone(), identity.1.clone(), identity.2.clone()).get_ticket().human_readable();
         for (srcs, outs) in by_sources.iter()
         {
@@ -113,6 +116,24 @@ fn history_file_name(id : &(Vec<String>, Vec<String>, Vec<String>)) -> String
     Rule::new(id.0.clone(), id.1.clone(), id.2.clone()).get_ticket().human_readable()
 }
 
+fn brief(b : &[u8]) -> String
+{
+    if b.len() <= 400 { super::super::util::show_bytes(b) } else { format!("<{} bytes, hash {}>", b.len(), cache_name_of(b)) }
+}
+
+/* A very large cache entry (an artefact of a real project), stored under its true name. */
+fn plant_big(runner : &Runner, size : usize)
+{
+    let mut content = Vec::with_capacity(size);
+    let mut x : u32 = 0x9E37_79B9;
+    while content.len() + 4 <= size { x = x.wrapping_mul(1_664_525).wrapping_add(1_013_904_223); content.extend_from_slice(&x.to_le_bytes()); }
+    while content.len() < size { content.push(b'#'); }
+    if runner.world.snapshot().0.is_dir(&cache_dir())
+    {
+        runner.world.user_write(&format!("{}/{}", cache_dir(), cache_name_of(&content)), &content);
+    }
+}
+
 fn run_ops(runner : &mut Runner, upto : usize, mut stats : Option<&mut Stats>)
 {
     while runner.next_op < upto && !runner.done()
@@ -137,6 +158,12 @@ pub fn run_case(case : &Case, seed : u64, fixed_requests : Option<&Vec<(String, 
         None => std::cmp::min(rng.below(3) as usize, case.ops.len().saturating_sub(1)),
     };
     let pre = case.ops.len() - k;
+    // one directory in a few hundred holds an entry of 16 MiB + 1 or of 129 MiB + 7 ("BIG" pseudo-request)
+    let big : Option<usize> = match fixed_requests
+    {
+        Some(r) => r.iter().find(|(m, _, _)| m == "BIG").and_then(|(_, p, _)| p.parse::<usize>().ok()),
+        None => if rng.chance(1, 300) { Some(*rng.pick(&[(1usize << 24) + 1, (1 << 27) + (1 << 20) + 7])) } else { None },
+    };
 
     // dry run: the reference model of the directory in every phase (the simulation is deterministic,
     // so the real run below goes through exactly the same states)
@@ -145,6 +172,7 @@ pub fn run_case(case : &Case, seed : u64, fixed_requests : Option<&Vec<(String, 
         let mut dry = Runner::new(case);
         dry.namer = Some(history_file_name);
         run_ops(&mut dry, pre, None);
+        if let Some(size) = big { plant_big(&dry, size); }
         refs.push(ref_model(&dry));
         for j in 0..k
         {
@@ -189,6 +217,7 @@ pub fn run_case(case : &Case, seed : u64, fixed_requests : Option<&Vec<(String, 
                 if let Some(alias) = super::super::util::alias_beyond_256_bits(s) { phase_reqs.push(("GET".to_string(), format!("/rules/{}/{}", r, alias), "present-sources-plus-2^256".to_string())); }
             }
             let hostile = hostile_paths(&mut rng, &some_valid);
+            if let Some(size) = big { reqs.push(("BIG".to_string(), format!("{}", size))); classes.push("op".to_string()); }
             for phase in 0..=k
             {
                 if phase > 0 { reqs.push(("OP".to_string(), format!("{}", pre + phase - 1))); classes.push("op".to_string()); }
@@ -249,7 +278,7 @@ pub fn run_case(case : &Case, seed : u64, fixed_requests : Option<&Vec<(String, 
             let mut keep_c = vec![];
             for ((m, p), c) in reqs.iter().zip(classes.iter())
             {
-                if m == "OP" || p.parse::<warp::http::Uri>().is_ok() { keep_r.push((m.clone(), p.clone())); keep_c.push(c.clone()); }
+                if m == "OP" || m == "BIG" || p.parse::<warp::http::Uri>().is_ok() { keep_r.push((m.clone(), p.clone())); keep_c.push(c.clone()); }
             }
             reqs = keep_r;
             classes = keep_c;
@@ -260,6 +289,7 @@ pub fn run_case(case : &Case, seed : u64, fixed_requests : Option<&Vec<(String, 
     let mut runner = Runner::new(case);
     runner.namer = Some(history_file_name);
     run_ops(&mut runner, pre, stats.as_deref_mut());
+    if let Some(size) = big { plant_big(&runner, size); if let Some(s) = stats.as_deref_mut() { s.inc("c19.directories_with_a_very_large_entry"); } }
     let sys = runner.world.system();
     let hook : Box<dyn FnMut()> = Box::new(move ||
     {
@@ -287,6 +317,7 @@ pub fn run_case(case : &Case, seed : u64, fixed_requests : Option<&Vec<(String, 
     let mut phase = 0usize;
     for (i, ((method, path), (status, body))) in reqs.iter().zip(responses.iter()).enumerate()
     {
+        if method == "BIG" { continue; }
         if method == "OP"
         {
             phase = std::cmp::min(phase + 1, refs.len() - 1);
@@ -345,7 +376,7 @@ pub fn run_case(case : &Case, seed : u64, fixed_requests : Option<&Vec<(String, 
                 else if body != b
                 {
                     out.push(Violation{ prop : "C19", sig : format!("C19:wrong-body:{}", if path.starts_with("/files/") { "file" } else { "rule" }),
-                        detail : format!("request {} {} {}{}: expected body {}, got {}", i, method, path, when, super::super::util::show_bytes(b), super::super::util::show_bytes(body)) });
+                        detail : format!("request {} {} {}{}: expected body {}, got {}", i, method, path, when, brief(b), brief(body)) });
                 }
             },
             Some((404, _)) =>
@@ -420,7 +451,7 @@ pub fn run_one(cfg : &Config, seed : u64, k : u64, stats : &mut Stats) -> Vec<Fo
         {
             i -= 1;
             budget -= 1;
-            if best[i].0 == "OP" { continue; }
+            if best[i].0 == "OP" || best[i].0 == "BIG" { continue; }
             let mut cand = best.clone();
             cand.remove(i);
             if run_case(&case, seed, Some(&cand), None).0.iter().any(|x| x.sig == v.sig) { best = cand; }
